@@ -75,6 +75,9 @@ type scenario struct {
 	// Conn: 0 = the XR asks for no connection secret; 1 = it asks for one and the composition produces no
 	// connection details; 2 = it asks for one and (pipeline mode) the last step returns fixed details.
 	Conn int `json:"conn,omitempty"`
+	// CacheLag: the faulted reconciles of the sweep (and drawn reconciles of the histories) read composed
+	// resources through a cache that has not yet seen just-created resources; follow-up reconciles see a caught-up cache.
+	CacheLag bool `json:"cacheLag,omitempty"`
 }
 
 // envStep is something the environment (provider, user) does between reconciles.
@@ -88,6 +91,7 @@ func genScenario() *rapid.Generator[scenario] {
 	return rapid.Custom(func(t *rapid.T) scenario {
 		sc := scenario{Pipeline: rapid.Bool().Draw(t, "pipeline"), Params: map[string]string{}, Seed: rapid.Int64Range(1, 1<<40).Draw(t, "nameseed")}
 		sc.Conn = rapid.SampledFrom([]int{0, 0, 1, 2}).Draw(t, "conn")
+		sc.CacheLag = rapid.IntRange(0, 2).Draw(t, "cachelag") == 0
 		n := rapid.IntRange(1, 4).Draw(t, "nrules")
 		sc.Steps = 1
 		if sc.Pipeline {
@@ -347,8 +351,27 @@ func (w *world) check(ctx string) {
 
 // reconcile runs one XR reconcile with the given fault plan and returns the run.
 func (w *world) reconcile(plan map[int]verifsim.Fault) (*verifsim.Run, error) {
+	return w.reconcileLag(plan, false)
+}
+
+// reconcileLag runs one reconcile; with lag, the controller's CACHED client has not yet seen composed
+// resources that were only just created (written once) while everything else is read as it is now - showing
+// an older STATUS would make the generated functions stop desiring a resource, whose deletion and later
+// re-creation under a new name is legitimate and outside the property's quantifier. The uncached client and all writes hit the live store - the informer lag the composers' "try again without the
+// cache" fallback exists for.
+func (w *world) reconcileLag(plan map[int]verifsim.Fault, lag bool) (*verifsim.Run, error) {
 	run := w.env.Sim.NewRun("xr-controller", plan)
-	_, err := w.env.Reconcile(run, xrName)
+	if !lag {
+		_, err := w.env.Reconcile(run, xrName)
+		return run, err
+	}
+	cached := run.StaleClient(func(k verifsim.Key) int {
+		if strings.HasPrefix(k.Kind, "Kind") {
+			return verifsim.LagHideNew
+		}
+		return 0
+	})
+	_, err := w.env.ReconcileWith(cached, run.Client(), xrName)
 	return run, err
 }
 
@@ -505,18 +528,22 @@ func (w *world) sweep(rec *verifkit.Recorder, stage string) {
 	baseCreated := copyCreated(w.created)
 	utilrandState := w.sc.Seed + int64(len(stage))
 	utilrand.Seed(utilrandState)
-	probe, _ := w.reconcile(nil)
+	lag := w.sc.CacheLag
+	probe, _ := w.reconcileLag(nil, lag)
 	w.check(stage + " / fault-free probe")
 	K := probe.N
 	first := probe.FirstWrite
 	rec.AddExtra("sweep_api_calls", K)
+	if lag {
+		rec.Label("sweep:cache-lag")
+	}
 	for k := 0; k < K; k++ {
 		for _, f := range faultKinds {
 			w.env.Sim.Restore(base)
 			w.created = copyCreated(baseCreated)
 			utilrand.Seed(utilrandState)
-			ctx := fmt.Sprintf("%s / fault %s(%s) at API call %d of %d [%s]", stage, f.Kind, f.Err, k, K, callName(probe, k))
-			_, _ = w.reconcile(map[int]verifsim.Fault{k: f})
+			ctx := fmt.Sprintf("%s / fault %s(%s) at API call %d of %d [%s] (cache lag %v)", stage, f.Kind, f.Err, k, K, callName(probe, k), lag)
+			_, _ = w.reconcileLag(map[int]verifsim.Fault{k: f}, lag)
 			w.check(ctx)
 			w.quiesceN(ctx, 1)
 			rec.AddExtra("fault_runs", 1)
@@ -608,13 +635,14 @@ func TestVerifC01Histories(t *testing.T) {
 				k := rapid.IntRange(0, 45).Draw(t, "k")
 				plan[k] = rapid.SampledFrom(faultKinds).Draw(t, "fault")
 			}
-			run, _ := w.reconcile(plan)
+			lagged := sc.CacheLag && rapid.Bool().Draw(t, "lagged")
+			run, _ := w.reconcileLag(plan, lagged)
 			for k := range plan {
 				if run.FirstWrite >= 0 && k >= run.FirstWrite && k < run.N {
 					faulted = true
 				}
 			}
-			hist = append(hist, fmt.Sprintf("reconcile%v", plan))
+			hist = append(hist, fmt.Sprintf("reconcile%v lag=%v", plan, lagged))
 			w.check(fmt.Sprintf("history step %d (plan %v)", i, plan))
 		}
 		w.quiesce("end of history " + strings.Join(hist, ";"))
